@@ -47,7 +47,7 @@ def stubs_for(c, inst, log):
     import desolver.utilities.optimizer as opt
     kind = FAMILIES[inst["family"]][2]
     if kind == "implicit":
-        return patched(opt, "nonlinear_roots", verdict_root_stub(c, success=inst.get("root_success", "true"), log=log, diverge_at=inst.get("root_diverge_at")))
+        return patched(opt, "nonlinear_roots", verdict_root_stub(c, success=inst.get("root_success", "true"), log=log, diverge_at=inst.get("root_diverge_at"), congruent=bool(inst.get("root_congruent"))))
     import contextlib
     return contextlib.nullcontext()
 
